@@ -314,7 +314,7 @@ func classify07(r c07Result, n int) string {
 
 // ---- hostile inputs --------------------------------------------------------------------
 
-var hostileCounts = []uint32{0, 1, 2, 0x7FFFFFFF, 0x80000000, 0xFFFFFFFF, 0x01000000, 4096, 4097, 0x00A00001}
+var hostileCounts = []uint32{0, 1, 2, 0x7FFFFFFF, 0x80000000, 0xFFFFFFFF, 0x01000000, 4096, 4097, 0x00A00001, 65536, 1 << 20, 2000000}
 
 // mutateCounts replaces each aligned 4-byte field, in turn, by a hostile value.
 func mutateCounts(r *Rand, enc []byte, max int) [][]byte {
@@ -364,6 +364,19 @@ func runC07(r *Rand, tier string, o *Out) {
 		}
 		add("rd:{s["+e+"]}", append(append(le(1), le(0)...), le(0x00800000)...), "fixed-size-elements")
 		add("val", append(append(append(le(3), "[m]"...), le(1)...), append(append(le(3), ("["+e+"]")...), le(0x00800000)...)...), "fixed-size-elements")
+	}
+
+	// lists of values that announce between a few thousand and a few million elements, one inside the other,
+	// with nothing behind the last count: every level that is accepted keeps its allocation alive
+	for _, cnt := range []uint32{4097, 65536, 1 << 20, 2000000, 2097152, 2097153} {
+		for _, depth := range []int{1, 4, 12} {
+			var data []byte
+			for d := 0; d < depth; d++ {
+				data = append(append(append(data, le(3)...), "[m]"...), le(cnt)...)
+			}
+			add("val", data, "nested-value-lists")
+			add("rd:[m]", append(le(1), data...), "nested-value-lists")
+		}
 	}
 
 	rounds := 10
